@@ -131,12 +131,12 @@ def run_conc_property(pid, tier, seed, replay, *, judges, classify=None, n_quick
     """judges: list of (name, fn(rec, prog, info) -> text|None).  classify(text, rec, prog, info) -> 'Kx ...' | None"""
     ck = Check(pid, tier, seed)
     rng = random.Random(seed)
-    pr = check_proofs(pid)
+    pr = check_proofs(pid, coqchk=(tier == "thorough"))
     for t in pr["theorems"]:
         ck.oblige("theorem " + t, pr["ok"], pr["failed"] or "")
     if not pr["theorems"]:
         ck.oblige("Properties/%s.v" % pid, False, pr["failed"] or "")
-    ck.assumptions = ["Print Assumptions: " + (", ".join(pr["assumptions"]) or "Closed under the global context (all theorems)")]
+    ck.assumptions = ["Print Assumptions: " + (", ".join(pr["assumptions"]) or "Closed under the global context (all theorems)")] + ([pr["coqchk"]] if pr.get("coqchk") else [])
     build_modelrun()
     build_harness("debug")
     if replay:
